@@ -1,3 +1,4 @@
+import Hcl.Proofs.Accepted
 import Hcl.Proofs.Settle
 open Rust
 
@@ -179,3 +180,155 @@ theorem C03_edge : ∀ (banks : List RegisterBank) (vals : AMap WireValue),
           rw [hC (by rw [e1]; exact hb) (by rw [e2]; exact hs) sg hsg]
           exact hsame c hc _ (List.mem_cons_of_mem _ (List.mem_cons_of_mem _ (List.mem_append_left _
             (List.mem_map.mpr ⟨sg, hsg, rfl⟩))))
+
+/-! ### for every accepted program -/
+
+theorem sigNames_nodup_parts : ∀ (sigs : List (String × String × Width)), (sigNames sigs).Nodup →
+    (sigs.map (·.2.1)).Nodup ∧ ∀ sg ∈ sigs, sg.1 ∉ sigs.map (·.2.1)
+  | [], _ => ⟨by simp, by simp⟩
+  | sg :: rest, h => by
+    have hrest : (sigNames rest).Nodup := by
+      simp only [sigNames, List.flatMap_cons] at h
+      exact (List.nodup_append.mp h).2.1
+    have hdis : ∀ x ∈ [sg.2.1, sg.1], ∀ y ∈ sigNames rest, x ≠ y := by
+      simp only [sigNames, List.flatMap_cons] at h
+      exact (List.nodup_append.mp h).2.2
+    have hne : sg.2.1 ≠ sg.1 := by
+      simp only [sigNames, List.flatMap_cons] at h
+      have := (List.nodup_append.mp h).1
+      simpa using this
+    obtain ⟨ih1, ih2⟩ := sigNames_nodup_parts rest hrest
+    have hmem : ∀ s' ∈ rest, s'.2.1 ∈ sigNames rest ∧ s'.1 ∈ sigNames rest := by
+      intro s' hs'
+      simp only [sigNames, List.mem_flatMap]
+      exact ⟨⟨s', hs', by simp⟩, ⟨s', hs', by simp⟩⟩
+    refine ⟨?_, ?_⟩
+    · simp only [List.map_cons, List.nodup_cons]
+      refine ⟨?_, ih1⟩
+      intro hm
+      obtain ⟨s', hs', e⟩ := List.mem_map.mp hm
+      exact hdis sg.2.1 (by simp) s'.2.1 (hmem s' hs').1 e.symm
+    · intro s' hs'
+      simp only [List.map_cons, List.mem_cons, not_or]
+      rcases List.mem_cons.mp hs' with h1 | h1
+      · subst h1
+        refine ⟨fun e => hne e.symm, ?_⟩
+        intro hm
+        obtain ⟨s'', hs'', e⟩ := List.mem_map.mp hm
+        exact hdis s'.1 (by simp) s''.2.1 (hmem s'' hs'').1 e.symm
+      · refine ⟨?_, ih2 s' h1⟩
+        intro e
+        exact hdis sg.2.1 (by simp) s'.1 (hmem s' h1).2 e.symm
+
+theorem bankNames_pairwise : ∀ (banks : List RegisterBank), (bankNames banks).Nodup →
+    (∀ b ∈ banks, (sigNames b.signals).Nodup) ∧
+    banks.Pairwise (fun b c => ∀ x ∈ sigNames b.signals, ∀ y ∈ sigNames c.signals, x ≠ y)
+  | [], _ => ⟨by simp, List.Pairwise.nil⟩
+  | b :: rest, h => by
+    simp only [bankNames, List.flatMap_cons] at h
+    obtain ⟨h1, h2, h3⟩ := List.nodup_append.mp h
+    obtain ⟨ih1, ih2⟩ := bankNames_pairwise rest h2
+    refine ⟨?_, List.Pairwise.cons ?_ ih2⟩
+    · intro c hc
+      rcases List.mem_cons.mp hc with e | e
+      · subst e; exact h1
+      · exact ih1 c e
+    · intro c hc x hx y hy
+      exact h3 x hx y (List.mem_flatMap.mpr ⟨c, hc, hy⟩)
+
+/-- **C03 for every accepted program**: at the clock edge of any state in which the bank signals are present (every
+    state a run reaches), every bank of an accepted program is updated as the statement says — bubble resets to
+    the defaults, otherwise stall keeps, otherwise the inputs are taken — and no other wire changes. -/
+theorem C03_accepted (fl : Flags) (cls : CharClass) (o : Orders) (stmts : List Stmt) (p : Program)
+    (hwf : StmtsWF stmts) (h : Program.new fl cls o y86FixedFunctions stmts = .ok p)
+    (vals : AMap WireValue)
+    (hpresent : ∀ b ∈ p.banks, (∀ sg ∈ b.signals, vals.contains sg.1 = true ∧ vals.contains sg.2.1 = true) ∧
+      vals.contains b.stall = true ∧ vals.contains b.bubble = true) :
+    ∃ vals', processBanks p.banks vals = .ok vals' ∧
+      (∀ n, (∀ b ∈ p.banks, n ∉ outsOf b) → vals'.toEnv n = vals.toEnv n) ∧
+      ∀ b ∈ p.banks,
+        (bitsAt vals b.bubble > 0 → ∀ q ∈ b.defaults, vals'.toEnv q.1 = some q.2) ∧
+        (bitsAt vals b.bubble = 0 → bitsAt vals b.stall > 0 → ∀ sg ∈ b.signals, vals'.toEnv sg.2.1 = vals.toEnv sg.2.1) ∧
+        (bitsAt vals b.bubble = 0 → bitsAt vals b.stall = 0 → ∀ sg ∈ b.signals, vals'.toEnv sg.2.1 = vals.toEnv sg.1) := by
+  obtain ⟨s1, constants, s3, known, hyp, _, _, _, hpb, _⟩ := Program_new_decompose fl cls o stmts p hwf h
+  rw [hpb] at hpresent ⊢
+  have hnd : (bankNames s3.banks).Nodup := by
+    have := hyp.s3f.nodup
+    rw [hyp.s3f.seen] at this
+    simpa [sigNames] using this
+  obtain ⟨hper, hpair⟩ := bankNames_pairwise s3.banks hnd
+  have hwfb : ∀ b ∈ s3.banks, BankWF vals b := by
+    intro b hb
+    obtain ⟨g1, g2⟩ := sigNames_nodup_parts b.signals (hper b hb)
+    have hs := (hyp.s3f.banks b hb).sigs
+    obtain ⟨hp1, hp2, hp3⟩ := hpresent b hb
+    exact {
+      outsNodup := g1
+      insNotOuts := g2
+      present := hp1
+      defaultsNodup := hs.keys
+      defaultsAreOuts := by
+        intro q hq
+        obtain ⟨sg, hsg, e, _⟩ := hs.dflt q hq
+        exact List.mem_map.mpr ⟨sg, hsg, e⟩
+      defaultsPresent := by
+        intro q hq
+        obtain ⟨sg, hsg, e, _⟩ := hs.dflt q hq
+        rw [← e]; exact (hp1 sg hsg).2
+      stall := hp2
+      bubble := hp3 }
+  have hpw : s3.banks.Pairwise (fun b c => (∀ n ∈ namesOf c, n ∉ outsOf b) ∧ (∀ n ∈ namesOf b, n ∉ outsOf c)) := by
+    -- control names are never signal names; signal names of different banks are distinct
+    have hctl : ∀ b ∈ s3.banks, ∀ c ∈ s3.banks, b.stall ∉ outsOf c ∧ b.bubble ∉ outsOf c := by
+      intro b hb c hc
+      obtain ⟨ch, e1, e2⟩ := (hyp.s3f.banks b hb).ctl
+      constructor
+      · intro hm
+        obtain ⟨sg, hsg, e⟩ := List.mem_map.mp hm
+        have := isSigName_second ((hyp.s3f.banks c hc).sigs.sig sg hsg).2.1
+        rw [e, e1, stall_not_sig] at this; cases this
+      · intro hm
+        obtain ⟨sg, hsg, e⟩ := List.mem_map.mp hm
+        have := isSigName_second ((hyp.s3f.banks c hc).sigs.sig sg hsg).2.1
+        rw [e, e2, bubble_not_sig] at this; cases this
+    have hsub : ∀ b : RegisterBank, ∀ n, n ∈ b.signals.map (·.1) ++ outsOf b → n ∈ sigNames b.signals := by
+      intro b n hn
+      simp only [sigNames, List.mem_flatMap]
+      rcases List.mem_append.mp hn with h1 | h1
+      · obtain ⟨sg, hsg, e⟩ := List.mem_map.mp h1
+        exact ⟨sg, hsg, by simp [e]⟩
+      · obtain ⟨sg, hsg, e⟩ := List.mem_map.mp h1
+        exact ⟨sg, hsg, by simp [e]⟩
+    have hmemPair : ∀ b ∈ s3.banks, ∀ c ∈ s3.banks,
+        (∀ x ∈ sigNames b.signals, ∀ y ∈ sigNames c.signals, x ≠ y) →
+        (∀ n ∈ namesOf c, n ∉ outsOf b) ∧ (∀ n ∈ namesOf b, n ∉ outsOf c) := by
+      intro b hb c hc hdis
+      constructor
+      · intro n hn hm
+        simp only [namesOf, List.mem_cons] at hn
+        rcases hn with e | e | e
+        · subst e; exact (hctl c hc b hb).1 hm
+        · subst e; exact (hctl c hc b hb).2 hm
+        · exact hdis n (hsub b n (List.mem_append_right _ hm)) n (hsub c n e) rfl
+      · intro n hn hm
+        simp only [namesOf, List.mem_cons] at hn
+        rcases hn with e | e | e
+        · subst e; exact (hctl b hb c hc).1 hm
+        · subst e; exact (hctl b hb c hc).2 hm
+        · exact hdis n (hsub b n e) n (hsub c n (List.mem_append_right _ hm)) rfl
+    -- lift the pairwise fact
+    have : ∀ (l : List RegisterBank), (∀ b ∈ l, b ∈ s3.banks) →
+        l.Pairwise (fun b c => ∀ x ∈ sigNames b.signals, ∀ y ∈ sigNames c.signals, x ≠ y) →
+        l.Pairwise (fun b c => (∀ n ∈ namesOf c, n ∉ outsOf b) ∧ (∀ n ∈ namesOf b, n ∉ outsOf c)) := by
+      intro l
+      induction l with
+      | nil => intro _ _; exact List.Pairwise.nil
+      | cons b rest ih =>
+        intro hin hp
+        obtain ⟨hp1, hp2⟩ := List.pairwise_cons.mp hp
+        refine List.Pairwise.cons ?_ (ih (fun x hx => hin x (List.mem_cons_of_mem _ hx)) hp2)
+        intro c hc
+        exact hmemPair b (hin b List.mem_cons_self) c (hin c (List.mem_cons_of_mem _ hc)) (hp1 c hc)
+    exact this s3.banks (fun _ hb => hb) hpair
+  obtain ⟨vals', h1, h2, _, h4⟩ := C03_edge s3.banks vals hwfb hpw
+  exact ⟨vals', h1, h2, h4⟩
